@@ -7,6 +7,7 @@ package splugin
 
 import (
 	"sync"
+	"time"
 )
 
 // Event is one observation at the plugin/deployer/API boundary.
@@ -17,7 +18,12 @@ type Event struct {
 	Conn int64  `json:"conn,omitempty"`
 	Run  string `json:"run,omitempty"`
 	Data any    `json:"data,omitempty"`
+	// T is the monotonic time of the event in milliseconds since process start. It is informational
+	// (and the input of C06's stated time bound); no other oracle reads it.
+	T float64 `json:"t"`
 }
+
+var t0 = time.Now()
 
 // Trigger runs a registered action when the matching event is appended to the log.
 // A trigger matches either an absolute sequence number (Seq > 0) or the Nth event of (Kind, Src).
@@ -62,7 +68,7 @@ func Log(kind, src string, conn int64, run string, data any) int64 {
 	logMu.Lock()
 	seq++
 	s := seq
-	events = append(events, Event{Seq: s, Kind: kind, Src: src, Conn: conn, Run: run, Data: data})
+	events = append(events, Event{Seq: s, Kind: kind, Src: src, Conn: conn, Run: run, Data: data, T: float64(time.Since(t0).Microseconds()) / 1000})
 	var fire []string
 	for _, t := range triggers {
 		if t.fired {
@@ -90,7 +96,7 @@ func Log(kind, src string, conn int64, run string, data any) int64 {
 	var fns []func()
 	for _, a := range fire {
 		seq++
-		events = append(events, Event{Seq: seq, Kind: "trigger", Src: a, Data: s})
+		events = append(events, Event{Seq: seq, Kind: "trigger", Src: a, Data: s, T: float64(time.Since(t0).Microseconds()) / 1000})
 		if len(a) > 5 && a[:5] == "open:" {
 			name := a[5:]
 			fns = append(fns, func() { OpenGate(name) })
